@@ -262,58 +262,87 @@ def is_det_negative(db, fn, cond, inits, pname):
         return False
     if not (l.get('k') == 'call' and T.short(l.get('fn', '')) == 'determinant'):
         return False
-    return any(x.get('k') == 'var' and x['n'] == pname for x in T.walk(l))
+    return pname is None or any(x.get('k') == 'var' and x['n'] == pname for x in T.walk(l))
 
 
 def rule_flip(chk, db, cfgname):
-    chk.rule('C17.2', 'Impl::Transform reverses the triangle orientation (FlipTris) exactly when the determinant of '
-             'the linear part is negative: the flip is control-dependent on determinant(mat3(transform)) < 0 and on '
-             'nothing else that the normal return does not also depend on')
-    fs = [f for f in db.fn('manifold::Manifold::Impl::Transform') if f.get('blocks')]
-    if len(fs) != 1:
-        raise AnalysisBroken('C17.2: Impl::Transform not found uniquely')
-    fn = fs[0]
-    g = C.Cfg(fn)
-    inits = local_inits(fn)
-    pname = fn['params'][0]['n']
-    # common guards: control dependences of the last return that yields the filled result
-    rets = [b['id'] for b in fn['blocks'] if any(e.get('k') == 'return' for e in b['ev']) and b['id'] in g.reachable()]
-    dom = g.dominators()
-    final = max(rets, key=lambda b: len(dom.get(b, ())))
-    common = set(g.control_deps(final))
-    flips = []
-    for b in fn['blocks']:
-        for e in b['ev']:
-            if e.get('k') in ('ilist', 'ctor', 'cast') and (db.T(fn, e.get('t', 0)).get('r') or '').endswith('::FlipTris'):
-                flips.append((b['id'], e.get('ln')))
-                break
-    chk.count('c17.2.flip_sites', len(flips))
-    if not flips:
-        chk.obligation(False, {'function': fn['name'], 'FlipTris': 'ABSENT'})
-        chk.violation('C17.2', fn, 'no FlipTris in Impl::Transform',
-                      'a transform of negative determinant no longer reverses the triangle winding: the mirrored '
-                      'solid is inside-out', cfg=cfgname)
-        return
-    for bid, ln in flips:
-        deps = set(g.control_deps(bid)) - common
-        good = []
-        extra = []
-        for d, k in deps:
-            cond, _ = C.branch_cond(g.blocks[d])
-            inner, neg = C.split_negation(cond) if cond is not None else (None, False)
-            if inner is not None and (k == 0) != neg and is_det_negative(db, fn, inner, inits, pname):
-                good.append(d)
-            else:
-                extra.append(T.pstr(cond) if cond is not None else '?')
-        ok = bool(good) and not extra
-        chk.obligation(ok, {'function': fn['name'], 'line': ln, 'FlipTris under': 'determinant(mat3(%s)) < 0' % pname
-                            if ok else 'extra conditions %s, determinant test %s' % (extra, bool(good))})
-        if not ok:
-            chk.violation('C17.2', fn, 'FlipTris not exactly under det<0',
-                          'the orientation flip is %s: orientation is not outward for every reflection / is reversed '
-                          'for a proper transform' % ('also conditional on ' + '; '.join(extra) if good else
-                                                      'not controlled by determinant(mat3(%s)) < 0' % pname),
-                          line=ln, cfg=cfgname)
+    chk.rule('C17.2', 'wherever vertex positions are mapped by a matrix (Impl::Transform, CsgLeafNode::Compose) the '
+             'triangle orientation is reversed (FlipTris) exactly when the determinant of its linear part is negative: '
+             'the flip is control-dependent on determinant(mat3(m)) < 0 and on nothing that the position transform '
+             'itself does not depend on')
+    nsite = 0
+    for fn in db.functions.values():
+        if not fn.get('blocks') or fn['file'].endswith(('parallel.h', 'iters.h', 'vec.h')):
+            continue
+        flips = []
+        for b in fn['blocks']:
+            for e in b['ev']:
+                if e.get('k') in ('ilist', 'ctor', 'cast') and \
+                        (db.T(fn, e.get('t', 0)).get('r') or '').endswith('::FlipTris') and \
+                        not fn['name'].endswith('FlipTris'):
+                    flips.append((b['id'], e.get('ln')))
+                    break
+        if not flips:
+            continue
+        g = C.Cfg(fn)
+        inits = local_inits(fn)
+        dom = g.dominators()
+        # the position transform: a transform/copy_n/copy call writing X.vertPos_ that dominates the flip
+        for bid, ln in flips:
+            nsite += 1
+            sites = []
+            for b in fn['blocks']:
+                if b['id'] not in dom.get(bid, ()):
+                    continue
+                for e in b['ev']:
+                    if e.get('k') == 'call' and T.short(e.get('fn', '')) in ('transform', 'copy_n') and \
+                            any(isinstance(y, dict) and y.get('k') == 'mem' and y.get('n') == 'vertPos_'
+                                for a in e.get('args', []) for y in T.walk(a)):
+                        sites.append(b['id'])
+            if not sites:
+                raise AnalysisBroken('C17.2: no position transform dominating the FlipTris in %s' % fn['name'])
+            site = max(sites, key=lambda x: len(dom.get(x, ())))
+            def closure(x):
+                out, work = set(), [x]
+                while work:
+                    y = work.pop()
+                    for dk in g.control_deps(y):
+                        if dk not in out:
+                            out.add(dk)
+                            work.append(dk[0])
+                return out
+            common = closure(site)
+            deps = closure(bid) - common
+            good = []
+            extra = []
+            for d, k in deps:
+                cond, _ = C.branch_cond(g.blocks[d])
+                inner, neg = C.split_negation(cond) if cond is not None else (None, False)
+                if inner is not None and (k == 0) != neg and is_det_negative(db, fn, inner, inits, None):
+                    good.append(d)
+                else:
+                    extra.append(T.pstr(cond)[:60] if cond is not None else '?')
+            ok = bool(good) and not extra
+            chk.obligation(ok, {'function': fn['name'][:80], 'line': ln, 'FlipTris under': 'determinant(mat3(m)) < 0'
+                                if ok else 'extra conditions %s, determinant test %s' % (extra, bool(good))})
+            if not ok:
+                chk.violation('C17.2', fn, 'FlipTris not exactly under det<0',
+                              'the orientation flip is %s: a reflected solid comes out inside-out (or a proper '
+                              'transform gets reversed)' % ('also conditional on ' + '; '.join(extra) if good else
+                                                            'not controlled by determinant(mat3(m)) < 0'),
+                              line=ln, cfg=cfgname)
+    chk.count('c17.2.flip_sites', nsite)
+    # every function that maps positions by a matrix has a flip: the two reviewed sites must still exist
+    if nsite < 2:
+        for want in ('manifold::Manifold::Impl::Transform', 'manifold::CsgLeafNode::Compose'):
+            fs = [f for f in db.functions.values() if f['name'].split('::<lambda')[0] == want and f.get('blocks')]
+            has = any((db.T(f, e.get('t', 0)).get('r') or '').endswith('::FlipTris')
+                      for f in fs for b in f['blocks'] for e in b['ev'] if e.get('k') in ('ilist', 'ctor', 'cast'))
+            if fs and not has:
+                chk.obligation(False, {'function': want, 'FlipTris': 'ABSENT'})
+                chk.violation('C17.2', fs[0], 'no FlipTris in %s' % T.short(want),
+                              '%s maps vertex positions by a matrix but no longer reverses the triangle winding for '
+                              'a negative determinant: the mirrored solid is inside-out' % want, cfg=cfgname)
 
 
 TRIG = {'sin', 'cos', 'tan', 'sincos'}
@@ -365,6 +394,73 @@ def rule_degrees(chk, db, cfgname):
                                           'multiples of 90 degrees are no longer exact' %
                                           (x['n'], T.pstr(e)[:80]), line=e.get('ln'), cfg=cfgname)
     chk.count('c17.3.degree_uses', n)
+
+
+def rule_level(chk, db, cfgname):
+    chk.rule('C17.4', 'LevelSet: every evaluation of the user signed-distance function is used relative to the '
+             'requested level (sdf(p) - level, directly or through one local): the extracted surface is {sdf = level}, '
+             'both at the grid corners and in the root refinement')
+    n = 0
+    for f in db.functions.values():
+        if not f.get('blocks') or f['file'] != 'src/sdf.cpp':
+            continue
+        # locals holding an sdf value
+        holds = {}
+        for b in f['blocks']:
+            for e in b['ev']:
+                if e.get('k') == 'decl':
+                    for v in e['vars']:
+                        i = v.get('init')
+                        if i is not None and _is_sdf_call(db, f, T.strip_copy(i)):
+                            holds[v['n']] = e.get('ln')
+        subtracted = set()
+        direct = []
+        for b in f['blocks']:
+            for e in b['ev']:
+                for x in T.walk(e):
+                    if not isinstance(x, dict):
+                        continue
+                    if x.get('k') == 'bin' and x.get('op') == '-':
+                        l, r = T.strip_copy(x['l']), T.strip_copy(x['r'])
+                        rl = r.get('n') if r.get('k') in ('var', 'mem') else None
+                        if rl == 'level':
+                            if _is_sdf_call(db, f, l):
+                                direct.append(l.get('i'))
+                            if l.get('k') == 'var' and l['n'] in holds:
+                                subtracted.add(l['n'])
+        seen = set()
+        for b in f['blocks']:
+            for e in b['ev']:
+                if e.get('k') == 'call' and _is_sdf_call(db, f, e) and e.get('i') not in seen:
+                    seen.add(e.get('i'))
+                    n += 1
+                    ok = e.get('i') in direct
+                    if not ok:
+                        # initialiser of a local that is later reduced by level
+                        for bb in f['blocks']:
+                            for ee in bb['ev']:
+                                if ee.get('k') == 'decl':
+                                    for v in ee['vars']:
+                                        i = v.get('init')
+                                        if i is not None and T.strip_copy(i).get('i') == e.get('i') and \
+                                                v['n'] in subtracted:
+                                            ok = True
+                    chk.obligation(ok, {'function': f['name'][:60], 'line': e.get('ln'), 'sdf evaluation': T.pstr(e)[:40],
+                                        'relative to level': ok})
+                    if not ok:
+                        chk.violation('C17.4', f, 'sdf value used without level',
+                                      '%s is not reduced by `level`: this evaluation locates the surface sdf = 0 '
+                                      'instead of sdf = level' % T.pstr(e)[:40], line=e.get('ln'), cfg=cfgname)
+    chk.count('c17.4.sdf_evaluations', n)
+
+
+def _is_sdf_call(db, f, n):
+    if n.get('k') != 'call' or n.get('op') != '()' or n.get('recv') is None:
+        return False
+    r = T.strip_copy(n['recv'])
+    t = db.T(f, r) if 't' in r else {}
+    return (t.get('r') == 'std::function' or 'std::function' in (t.get('c') or '')) and \
+        r.get('k') in ('var', 'mem') and 'sdf' in r.get('n', '').lower()
 
 
 def main(chk, tier):
@@ -455,10 +551,12 @@ def main(chk, tier):
                                   line=bad_exit[0][2], cfg=cfgname)
         rule_flip(chk, db, cfgname)
         rule_degrees(chk, db, cfgname)
+        rule_level(chk, db, cfgname)
     n = len(configs)
     chk.floor('c17.1.parameters', 12 * n)
-    chk.floor('c17.2.flip_sites', n)
+    chk.floor('c17.2.flip_sites', 1 * n)
     chk.floor('c17.3.degree_uses', 14 * n)
+    chk.floor('c17.4.sdf_evaluations', 2 * n)
     return chk.finish(
         'Finite-domain abstract evaluation of the validation ladder of every 3D constructor: the checker interprets '
         'the comparison / isfinite / length conditions along the CFG from the entry on representative argument values '
